@@ -2,6 +2,7 @@
 
 from __future__ import annotations
 
+from common import rng_for
 from gwcore import replay_ops, run_property
 from histgen import Profile
 from oracles import oracle_c04
@@ -13,7 +14,13 @@ def run(ctx, model_available=True):
                         weights=dict(node_pres=3, gw_pres=1, child_pres=4, set=6, req=2, battery=3, time=0.3, version=0.5,
                                      id_request=2, config=0.3, log=0.3, sketch=3, gw_ready=0.3, discover_resp=0.7,
                                      heartbeat=3, pre_sleep=2, post_sleep=0.5, other_internal=1, stream=1))]
-    return run_property(ctx, "C04", profiles=profiles, n_quick=700, n_thorough=12000, oracle=oracle_c04,
+    # commands parked for sleeping nodes and released at a wake are commands, not reports:
+    # the registry must not change because of them
+    from props.sleepgen import gen_sleep_history
+
+    rng = rng_for(ctx.seed, "C04sleep")
+    hs = [gen_sleep_history(rng, i % 3 == 0) for i in range(ctx.budget(150, 2500))]
+    return run_property(ctx, "C04", profiles=profiles, histories=hs, n_quick=700, n_thorough=12000, oracle=oracle_c04,
                         model_available=model_available,
                         assumptions=["a gateway (node 0) presentation whose version is rejected keeps the re-created node record (the later stage fails after the registry update)"])
 
